@@ -1,7 +1,7 @@
 """C09 — data of arguments not declared safe never reaches a safe-to-log channel (sink typing)."""
 from ..facts import ty_adt, tystr, walk_ty, place_local, place_proj, op_place, strip_refs
 from ..cfg import CFG, Tracer, thaw
-from .. import tguard, dt, instance, safety
+from .. import tguard, dt, instance, safety, inline
 from . import c06, c17
 
 BT = "conjure_object::bearer_token::BearerToken"
@@ -142,7 +142,9 @@ def run(ctx):
                         vc = dt.resolve_const(ob, oop)
                         oty = tystr(op_type(ob, oop) or {})
                         shown.append(oty)
-                        countish = oty in ("usize", "i32", "u32", "u64", "i64") and all(base_kind(ob, s_) for s_ in Tracer(ob, through_calls=True).sources(oop))
+                        # a count computed by a private helper and handed back (e.g. in a tuple) is followed into the helper
+                        eb_ = inline.expand(c, ob, depth=2, pred=inline.private_helpers()) if ob.kind in ("fn", "assoc_fn", "closure") else ob
+                        countish = oty in ("usize", "i32", "u32", "u64", "i64") and all(base_kind(eb_, s_) for s_ in Tracer(eb_, through_calls=True).sources(oop))
                         ok = ok and (vc is not None or countish)
                     ctx.check(ok, "R9.1", where, key + f"|{k}", f"{b.id}: with_safe_param({k!r}, <{'/'.join(sorted(set(shown))) or tystr(vty)}>) attaches a value that is neither a constant nor a count to a safe-to-log parameter (request data would be logged as safe)",
                               instance=f"{b.id}: with_safe_param({k!r}, constant/count)")
@@ -241,6 +243,11 @@ def run(ctx):
                     ctx.violation("R9.3", b.loc(), f"{key}|extra-sink|{f['name']}", f"{key}: generated handler calls {f['name']}")
     ctx.floor("R9.3", "SafeParams insertions in generated handlers", total_ins, 12)
     # macro: insertion template only under arg.safe(); ArgType::safe constant false for auth/context
+    cm = F.crate("conjure_macros")
+    # the safety predicate(s) of the macro's argument model: methods of ArgType named *safe* returning bool or Option<_>
+    sb = [b for b in cm.bodies if b.impl and b.kind == "assoc_fn" and (ty_adt(b.self_ty) or "").endswith("endpoints::ArgType") and "safe" in b.name
+          and (tystr(b.local_ty(0)) == "bool" or tystr(b.local_ty(0)).startswith("core::option::Option"))]
+    safe_names = sorted({b.name for b in sb}) or ["safe"]
     tm = F.tmpl()
     if tm is not None:
         found = 0
@@ -251,26 +258,43 @@ def run(ctx):
                 for call in q["calls"]:
                     if call["name"] == "insert" and len(call["args"]) == 2 and "#safe_params" in q["text"].replace(" ", ""):
                         found += 1
-                        v = tguard.positive_guard(q["conds"], "safe", allow_others=True)
+                        vs_ = [tguard.positive_guard(q["conds"], nm_, allow_others=True) for nm_ in safe_names]
+                        v = False if False in vs_ else (True if True in vs_ else None)
                         if v is None:
                             # decision taken outside the template's syntactic conditions (early return / helper): the emitting
-                            # function must at least consult ArgType::safe; the generated instance is decided above (safe-set)
+                            # function must at least consult ArgType's safety predicate; the generated instance is decided above (safe-set)
                             mb = [x for x in F.crate("conjure_macros").bodies if x.kind in ("fn", "assoc_fn") and x.name == fn["name"]]
-                            consulted = any(t_["call"]["name"] == "safe" and "ArgType" in t_["call"]["def"] for x in mb for y in [x] + F.crate("conjure_macros").closures_of(x) for _, t_ in y.calls())
+                            consulted = any(t_["call"]["name"] in safe_names and "ArgType" in t_["call"]["def"] for x in mb for y in [x] + F.crate("conjure_macros").closures_of(x) for _, t_ in y.calls())
                             if consulted:
-                                ctx.note(f"R9.3 {fn['name']}: insertion template's conditions {q['conds']} not in a recognised form; the function consults ArgType::safe; instance decided by the safe-set rule")
+                                ctx.note(f"R9.3 {fn['name']}: insertion template's conditions {q['conds']} not in a recognised form; the function consults ArgType's safety predicate; instance decided by the safe-set rule")
                                 continue
                             v = False
                         ctx.check(v, "R9.3", f"{fn['file'].split('/repo/')[-1]}:{q['line']}", f"{fn['name']}|insert-under-safe", f"macro: the SafeParams insertion template in {fn['name']} is not guarded by arg.safe() (conditions: {q['conds']})",
                                   instance=f"{fn['name']}: safe_params.insert emitted only if arg.safe()")
         ctx.floor("R9.3", "SafeParams insertion templates", found, 1)
-    cm = F.crate("conjure_macros")
-    sb = [b for b in cm.bodies if b.name == "safe" and b.impl and (ty_adt(b.self_ty) or "").endswith("endpoints::ArgType")]
-    if len(sb) == 1:
-        table, wild, names = const_bool_by_variant(sb[0], F, ty_adt(sb[0].self_ty))
-        for v in ("Auth", "Context"):
-            ctx.check(table.get(v) == {False}, "R9.3", sb[0].loc(), f"ArgType::safe|{v}", f"macro: ArgType::safe() for {v} arguments is {table.get(v)}, must be constant false (auth tokens and contexts are never safe params)",
-                      instance=f"ArgType::safe({v}) = false")
+    if sb:
+        from .. import minterp
+        AT = ty_adt(sb[0].self_ty)
+        vnames = [v_["name"] for v_ in F.adt(AT)["variants"]]
+        for pb in sb:
+            I = minterp.Interp(F, cm, inline=lambda d_, rid: rid.startswith("conjure_macros::") and rid != pb.id, max_depth=2)
+            for v in ("Auth", "Context"):
+                if v not in vnames:
+                    continue
+                vi = vnames.index(v)
+                try:
+                    r_ = I.run(pb, [minterp.adt(AT, vi, [("sym", "x")] * len(F.adt(AT)["variants"][vi]["fields"]))])
+                    neg = r_ is False or (minterp.is_adt(r_) and r_[1] == "core::option::Option" and r_[2] == 0)
+                    shown = "false" if r_ is False else ("None" if neg else minterp.show(I, r_))
+                except minterp.Unsupported as e_:
+                    if tystr(pb.local_ty(0)) == "bool":
+                        table, wild, names = const_bool_by_variant(pb, F, AT)
+                        neg = table.get(v) == {False}
+                        shown = str(table.get(v))
+                    else:
+                        neg, shown = False, f"not analysable ({e_})"
+                ctx.check(neg, "R9.3", pb.loc(), f"ArgType::safe|{v}", f"macro: ArgType::{pb.name}() for {v} arguments is {shown}, must be constant false / None (auth tokens and contexts are never safe params)",
+                          instance=f"ArgType::{pb.name}({v}) = {shown}")
     else:
         ctx.violation("R9.3", "conjure_macros", "anchor|ArgType::safe", "ArgType::safe not found")
     # ---------------------------------------------------------------- R9.4
